@@ -583,17 +583,39 @@ def parse_term(t):
     m = re.match(r'^drop\((.*)\) -> \[return: bb(\d+)', t)
     if m:
         return ('goto', int(m.group(2)))
-    m = re.match(r'^(?:(.*?) = )?([^=]*?)\((.*)\) -> (.*)$', t, re.S)
-    if m:
-        dst = None
-        if m.group(1):
-            loc, pr = parse_place(m.group(1))
-            dst = (loc, tuple(pr))
-        mt = re.search(r'return: bb(\d+)', m.group(4))
-        args = []
-        for x in split_top(m.group(3)):
-            args.append(parse_operand(x))
-        return ('call', dst, m.group(2).strip(), args, int(mt.group(1)) if mt else None)
+    i = t.rfind(') -> ')
+    if i > 0:
+        head, tail = t[:i + 1], t[i + 5:]
+        # the argument list is the last balanced (...) of head; scan backwards, skipping string literals
+        depth = 0
+        j = len(head) - 1
+        instr = False
+        while j >= 0:
+            c = head[j]
+            if instr:
+                if c == '"' and (j == 0 or head[j - 1] != '\\'):
+                    instr = False
+            elif c == '"':
+                instr = True
+            elif c == ')':
+                depth += 1
+            elif c == '(':
+                depth -= 1
+                if depth == 0:
+                    break
+            j -= 1
+        if j > 0:
+            callee = head[:j]
+            argtxt = head[j + 1:-1]
+            dst = None
+            k = callee.find(' = ')
+            if k >= 0 and re.match(r'^[\(\*_]', callee) and '<' not in callee[:k]:
+                loc, pr = parse_place(callee[:k])
+                dst = (loc, tuple(pr))
+                callee = callee[k + 3:]
+            mt = re.search(r'return: bb(\d+)', tail)
+            args = [parse_operand(x) for x in split_top(argtxt)]
+            return ('call', dst, callee.strip(), args, int(mt.group(1)) if mt else None)
     raise MirError('terminator? ' + t)
 
 
